@@ -142,7 +142,7 @@ def run(ctx):
     wa, ws = astq.nodes_of(a, "WhileStmt")[0], astq.nodes_of(s_, "WhileStmt")[0]
     ta = a.text(a.nodes[wa]["cond"]) + " :: " + " ; ".join((a.text(a.nodes[x]["cond"]) + " THEN " + a.text(a.nodes[x]["then"])) if a.nodes[x]["k"] == "IfStmt" else a.text(x) for x in a.nodes[a.nodes[wa]["body"]]["ch"])
     ts = s_.text(s_.nodes[ws]["cond"]) + " :: " + " ; ".join((s_.text(s_.nodes[x]["cond"]) + " THEN " + s_.text(s_.nodes[x]["then"])) if s_.nodes[x]["k"] == "IfStmt" else s_.text(x) for x in s_.nodes[s_.nodes[ws]["body"]]["ch"])
-    mirror = ts.replace("-=", "+=").replace("] < tmp", "] > tmp")
+    mirror = ts.replace("-=", "+=").replace("] < tmp", "] @GT tmp").replace("] > tmp", "] < tmp").replace("@GT", ">")
     r.ob("Qentem::BigInt", "Add/Subtract loops", mirror == ta, "Subtract's loop with -= -> += and < -> > equals Add's loop: %s" % (mirror == ta), "Include/BigInt.hpp:%d" % a.line)
     rules.append(r)
 
